@@ -65,6 +65,11 @@ CLAIMED = {
     note="Trusted: Coq kernel; stdlib real axioms and Classical_Prop.classic (via Coquelicot); scipy.integrate as the reference; the weight matrices' tie to the Coq model is the C03 correspondence.",
     technique="Coq proof (discrete Lipschitz bound; Coquelicot FTC for the ring mass) + numerical convergence oracle",
     design="DESIGN.md §3 C04"),
+ "C02": dict(
+    text="Coq theorems over the reals for every distribution type, centre, width > 0, n-sigma > 0, point count >= 2 and limits: values strictly increasing (numpy linspace is strictly increasing; shift and filters keep order), inside the hard limits and the distribution's own support (x>0 for lognormal/Schulz, half-width sigma for uniform and sqrt(3) sigma for rectangle), normalised weights non-negative with unit sum, the formulas as written in weights.py equal the documented densities (Gaussian; lognormal with median = centre and the 1/x Jacobian; Schulz = z^z R^(z-1) e^(-Rz)/(c Gamma z) with z=(c/sigma)^2, i.e. mean = centre and sigma = PD*mean; Laplace), the degenerate single-point case and the relative/absolute width conventions. Tied to the code by running the executable Coq model (binary64) of the value grids and of the density arguments against get_weights (exp/log/lgamma applied by the harness), and by a model-free oracle against scipy.stats densities.",
+    note="Trusted: Coq kernel; stdlib real axioms; numpy/scipy exp, log, lgamma as leaves; scipy.stats as the reference; lognormal/Schulz generated with relative widths only.",
+    technique="Coq proof (sortedness of linspace, exp/ln identities over R) + two-pass vm_compute correspondence + scipy.stats oracle",
+    design="DESIGN.md §3 C02"),
 }
 NA_REASON = "check not built yet in this session (planned, see DESIGN.md §7)"
 
